@@ -176,9 +176,21 @@ def run(ctx):
             if ve and "None" in ve:
                 none_edge, some_edge = ve["None"], ve.get("Some")
         ok = len(streq) == 1 and none_edge is not None and cmpv.dominates(none_edge, streq[0].block)
+        if not ok and not streq:
+            # `incremental_compare(..).unwrap_or_else(|| first == second)`: the same fall-back as the adapter's closure (a decided answer is kept by
+            # the adapter itself)
+            for c in cmpv.calls:
+                if c.name in ("unwrap_or_else",) and c.args and any(x[0] == "call" and x[1] is inc[0] for x in cmpv.sources(c.args[0])):
+                    for cd in c.callee.get("closure_args", ()):
+                        if cd in rc.by_def:
+                            cb = rc.body(cd)
+                            eqs_ = [x for x in cb.calls if x.name == "eq" and sorted(describe_operand(cb, a) for a in x.args) == ["first", "second"]]
+                            if len(eqs_) == 1 and all(describe_rvalue(cb, rv).startswith("eq(") or True for i, j, p, rv, line in cb.assigns() if p[0] == 0 and not p[1]):
+                                ok = True
+                                r.ok("compare_recon_values/decided=>answer-kept", where(cmpv), "a decided comparison is returned as it is (unwrap_or_else)")
         r.check(ok, "compare_recon_values/undecided=>string-equality", where(cmpv), "when the incremental comparison gives no answer (both invalid) the strings are compared as plain text",
                 "the `None` result of incremental_compare is not answered by `first == second`")
-        if ok and some_edge is not None:
+        if ok and some_edge is not None and streq:
             r.check(not cmpv.dominates(some_edge, streq[0].block) and not cmpv.reaches(some_edge, {streq[0].block}), "compare_recon_values/decided=>answer-kept", where(cmpv), "a decided comparison is returned as it is",
                     "the plain string comparison is also reachable after the comparator decided")
         rh = ctx.saw(rc.fn(name="recon_hash"))
@@ -256,7 +268,16 @@ def run(ctx):
             pf = [c for c in pushes if describe_operand(hb, c.args[1]) == "False"]
             same = len(pt) == 1 and (hb.dominates(pt[0].block, sb[0].block) or hb.dominates(sb[0].block, pt[0].block)) and \
                 hb.must_pass([pt[0].block], {sb[0].block}, targets={loop_head} | set(hb.exits()))[0] if pt and not hb.dominates(sb[0].block, pt[0].block) else bool(pt)
-            r.check(bool(same) and all(not hb.reaches(c.block, {sb[0].block}, avoid={loop_head}) and not hb.reaches(sb[0].block, {c.block}, avoid={loop_head}) for c in pf),
+            agree = bool(same) and all(not hb.reaches(c.block, {sb[0].block}, avoid={loop_head}) and not hb.reaches(sb[0].block, {c.block}, avoid={loop_head}) for c in pf)
+            if not agree and len(pushes) == 1 and op_place(pushes[0].args[1]) is not None:
+                # `let wrap = ..; stack.push(wrap); if wrap { StartBody }`: the flag pushed is the very value that decides the synthetic event
+                pr = hb.copy_root(pushes[0].args[1])
+                for d_, l_, sb_ in dom_guards(hb, sb[0].block):
+                    tt_ = hb.term(sb_)
+                    if l_ == "true" and tt_.get("k") == "switch" and op_place(tt_["discr"]) is not None and hb.copy_root(tt_["discr"]) == pr:
+                        # ... and it is tested after it was pushed or before, but not changed in between (a single definition point per path)
+                        agree = hb.dominates(pushes[0].block, sb[0].block) or hb.dominates(sb_, pushes[0].block)
+            r.check(agree,
                     "hash/StartBody<=>push(true)", sb[0].loc(), "a synthetic StartBody is hashed exactly on the path that pushes `true`",
                     "the synthetic StartBody and the pushed flag can disagree: the closing EndRecord is then missing or spurious")
             g = dom_guards(hb, sb[0].block)
@@ -292,7 +313,39 @@ def run(ctx):
         def validator_side(op):
             return vside.get(root_local(op))
 
-        def event_side(op):
+        def event_side(op, _depth=0, _seen=None):
+            """which input an event comes from. An event that went through a helper (`let Some(event_1) = skip_structural(.., event_1, ..)`) is one of
+            several values - the event handed in, or the next one of that side's iterator: all of them must belong to the same input."""
+            one = event_side_direct(op)
+            if one is not None or _depth > 6:
+                return one
+            pl = op_place(op)
+            if pl is None:
+                return None
+            _seen = set() if _seen is None else _seen
+            if pl[0] in _seen:
+                return None
+            _seen.add(pl[0])
+            sides = set()
+            for d_ in inc_b.defs.get(pl[0], ()):
+                if d_[0] in ("call", "partcall"):
+                    c_ = d_[2]
+                    if c_.name == "next" and c_.args:
+                        sides.add(iter_side(c_.args[0]))
+                    else:
+                        for a_ in c_.args:
+                            if op_place(a_) is not None and "ReadEvent" in (inc_b.locals[op_place(a_)[0]] if op_place(a_)[0] < len(inc_b.locals) else ""):
+                                sides.add(event_side(a_, _depth + 1, _seen))
+                elif d_[0] in ("assign", "part"):
+                    rv_ = d_[3] if d_[0] == "assign" else d_[4]
+                    ops_ = [rv_[1]] if rv_[0] == "use" else ([["c", rv_[2]]] if rv_[0] == "ref" else (list(rv_[2]) if rv_[0] == "agg" else []))
+                    for o_ in ops_:
+                        if op_place(o_) is not None:
+                            sides.add(event_side(o_, _depth + 1, _seen))
+            sides.discard(None)
+            return next(iter(sides)) if len(sides) == 1 else None
+
+        def event_side_direct(op):
             pl0 = op_place(op)
             if pl0 and pl0[1] and isinstance(pl0[1][0], list) and pl0[1][0][0] == "f" and isinstance(pl0[1][0][1], int) and len(pl0[1]) > 1:
                 return pl0[1][0][1] + 1
@@ -383,6 +436,7 @@ def run(ctx):
                 "the results of the two feed_event calls after a skip are not compared: when both inputs end there the validators are back in their initial state and differently nested records compare equal ({1,2,{}} vs {1,{2}}) while their hashes differ")
         skip_eqs = [c for c in inc_b.calls if c.name in ("eq", "ne") and any(describe_operand(inc_b, a).startswith("ReadEvent::") for a in c.args)]
         fin = [c for c in inc_b.calls if c.name == "ne" and len(c.args) == 2 and not any(describe_operand(inc_b, a).startswith("ReadEvent::") for a in c.args)
+               and all(op_place(a) is not None and "ReadEvent" in inc_b.locals[op_place(a)[0]] and "Option<" not in inc_b.locals[op_place(a)[0]] for a in c.args)
                and sorted(str(event_side(a)) for a in c.args) == ["1", "2"] and skip_eqs and all(inc_b.reaches(x.block, {c.block}) for x in skip_eqs) and not any(inc_b.reaches(c.block, {x.block}, avoid={n_.block for n_ in nexts[:2]}) for x in skip_eqs)]
         r.check(len(fin) == 1, "compare/mismatch-after-skips-decides", where(inc_b), "after the skips the two current events are compared once more and a mismatch is decisive")
 
@@ -396,7 +450,7 @@ def run(ctx):
             if c.name != "next" or not c.args:
                 continue
             g = dom_guards(inc_b, c.block)
-            ev = [(d, l) for d, l, _ in g if re.match(r"^eq\(.+, ReadEvent::(StartBody|EndRecord)\(\)\)$", d) and l == "true"]
+            ev = [(d, l) for d, l, _ in g if (re.match(r"^eq\(.+, ReadEvent::(StartBody|EndRecord)\(\)\)$", d) and l == "true") or (re.match(r"^ne\(.+, ReadEvent::(StartBody|EndRecord)\(\)\)$", d) and l == "false")]
             if not ev:
                 continue
             # guards that are not a comparison of events (with each other or with a constant event) and not the shape of the iterator results
@@ -421,8 +475,36 @@ def run(ctx):
         # and hash differently.
         ve = ctx.saw(rc.fn(name="eq", self_adt="comparator::ValueValidator"))
 
+        def component(b_, op, hops=8):
+            """`(a, b).0` is a - also when the pair is the result of a helper that was spliced in and is copied before it is taken apart"""
+            while hops > 0:
+                hops -= 1
+                pl = op_place(op)
+                if pl is None:
+                    return op
+                d_ = b_.single_def(pl[0])
+                if d_ is None or d_[0] != "assign":
+                    return op
+                rv = d_[3]
+                elems = [x for x in pl[1] if x != "*"]
+                if rv[0] == "use" and op_place(rv[1]) is not None:
+                    q = op_place(rv[1])
+                    op = ["c", [q[0], list(q[1]) + list(pl[1])]]
+                    continue
+                if rv[0] == "agg" and rv[1].get("tuple") and elems and isinstance(elems[0], list) and elems[0][0] == "f" and isinstance(elems[0][1], int) and elems[0][1] < len(rv[2]):
+                    o = rv[2][elems[0][1]]
+                    rest = list(pl[1])[list(pl[1]).index(elems[0]) + 1:]
+                    if op_place(o) is None:
+                        return o
+                    q = op_place(o)
+                    op = ["c", [q[0], list(q[1]) + rest]]
+                    continue
+                return op
+            return op
+
         def kinds_of(b_, op):
             ks = set()
+            op = component(b_, op)
             for x in b_.sources(op, stop_at_calls=False):
                 if x[0] == "call":
                     nm = x[1].name or ""
